@@ -61,12 +61,15 @@ def snap(o):
 def objects(kind, mode):
     """fresh argument objects"""
     stamps = T0 if kind == "traj" else None
-    a = common.make_traj(R0, P0, stamps, mode)
+    # (metadata as evo gives trajectories read from bag files)
+    a = common.make_traj(R0, P0, stamps, mode, meta={"frame_id": "odom"})
     Rb = [_Rz @ R for R in R0]
     Pb = [2.0 * (_Rz @ p) + np.array([1.0, 1.0, 0.0]) + (
         np.array([0, 0, 1.0]) if k == 3 else 0) for k, p in enumerate(P0)]
     b = common.make_traj(Rb, Pb, None if stamps is None else
-                         [t + 0.125 for t in T0], mode)
+                         [t + 0.125 for t in T0], mode,
+                         meta={"frame_id": "map",
+                               "child_frame_id": "base_link"})
     return a, b
 
 
@@ -280,6 +283,46 @@ def _calls():
         plot.error_array(fig.gca(), err, x_array=x, cumulative=True)
         plt.close(fig)
     add("plot functions", f_plot)
+
+    def f_copying(a, b, W):
+        """copy / deepcopy / pickle are computations on their argument too.
+        Observed WITHOUT deep copies (the harness' usual snapshot is a deep
+        copy itself): the stored attributes and the values read from the
+        live object"""
+        import pickle
+        from evo.core.trajectory import PosePath3D, PoseTrajectory3D
+        quat = np.array([[-0.5, 0.5, 0.5, 0.5], [0.0, 1.0, 0.0, 0.0],
+                         [-1.0, 0.0, 0.0, 0.0], [0.6, 0.0, -0.8, 0.0]])
+        xyz = np.array([[0.0, 1.0, 2.0], [1.0, 1.5, 2.0], [2.0, 1.0, 2.5],
+                        [3.0, 0.5, 2.0]])
+        if hasattr(a, "timestamps"):
+            t = PoseTrajectory3D(xyz, quat, np.array(T0))
+        else:
+            t = PosePath3D(xyz, quat)
+        for materialise in (False, True):
+            if materialise:
+                t.poses_se3    # all three representations held at once
+            for label, op in (("copy.deepcopy", copy.deepcopy),
+                              ("copy.copy", copy.copy),
+                              ("pickle", lambda o: pickle.loads(
+                                  pickle.dumps(o)))):
+                keys = sorted(t.__dict__)
+                q0 = t.orientations_quat_wxyz.tobytes()
+                p0 = t.positions_xyz.tobytes()
+                keys = sorted(t.__dict__)
+                c = op(t)
+                assert sorted(t.__dict__) == keys, (
+                    "%s changed the stored attributes of its argument: %s "
+                    "-> %s" % (label, keys, sorted(t.__dict__)))
+                assert t.orientations_quat_wxyz.tobytes() == q0 and \
+                    t.positions_xyz.tobytes() == p0, (
+                        "%s changed the quaternions / positions of its "
+                        "argument" % label)
+                assert c.orientations_quat_wxyz.tobytes() == q0 and \
+                    c.positions_xyz.tobytes() == p0, (
+                        "the %s copy holds other quaternions / positions "
+                        "than the original" % label)
+    add("copy/deepcopy/pickle", f_copying)
     return calls
 
 
@@ -396,7 +439,10 @@ class HState(object):
 
 
 DERIVE = ["deepcopy", "associate", "split_distance", "split_time",
-          "split_speed", "merge", "df_roundtrip", "split_nogap"]
+          "split_speed", "merge", "df_roundtrip", "split_nogap",
+          # a second object constructed from the very pose list / arrays of
+          # the first (what the split functions do with slices)
+          "share_list"]
 MUTATE = ["transform", "scale", "project_xy", "project_xz", "reduce",
           "align_origin", "align", "read_all", "motion_filter"]
 MAXHEAP = 3
@@ -521,6 +567,14 @@ class Heap(object):
                     new = list(o.split_speed_outliers(1.8))
                 elif name == "merge":
                     new = [trajectory.merge([o])]
+                elif name == "share_list":
+                    from evo.core.trajectory import PoseTrajectory3D
+                    kw = {"poses_se3": o.poses_se3}
+                    if isinstance(o, PoseTrajectory3D):
+                        new = [PoseTrajectory3D(timestamps=o.timestamps,
+                                                **kw)]
+                    else:
+                        new = [PosePath3D(**kw)]
                 elif name == "df_roundtrip":
                     new = [pandas_bridge.df_to_trajectory(
                         pandas_bridge.trajectory_to_df(o))]
@@ -591,7 +645,16 @@ def run(ctx):
     names = [c[0] for c in _calls()]
     acc = pmap_acc(ctx, __name__, "shard_purity", [[n] for n in names])
     depth = ctx.pick(3, 4)
-    acc2 = hist.bfs(ctx, FACTORY, depth)
+    try:
+        acc2 = hist.bfs(ctx, FACTORY, depth)
+    except Exception as e:
+        # the explorer observes states through deep copies; if Part A already
+        # reports violations (e.g. a deep copy that edits its argument) the
+        # exploration cannot be trusted - report Part A
+        if type(e).__name__ != "HarnessError" or not acc.vlist:
+            raise
+        acc2 = Acc()
+        acc2.cap_hit("heap exploration abandoned: %s" % str(e)[:200])
     n_purity = acc.counters["evaluations"]
     acc.merge(acc2)
     acc.counters["states"] = acc2.counters["states"] + n_purity
